@@ -10,6 +10,7 @@ import (
 	corev1 "k8s.io/api/core/v1"
 	metav1 "k8s.io/apimachinery/pkg/apis/meta/v1"
 	clock "k8s.io/utils/clock/testing"
+	"sigs.k8s.io/controller-runtime/pkg/client"
 	"sigs.k8s.io/controller-runtime/pkg/client/interceptor"
 
 	v1 "sigs.k8s.io/karpenter/pkg/apis/v1"
@@ -119,6 +120,10 @@ func caseFits(c *kit.Ctx, r *kit.Rand) {
 
 func casePodReqs(c *kit.Ctx, r *kit.Rand, w *sk.World) {
 	p := sk.GenPod(r, "p", w, sk.GenOpts{})
+	if r.Chance(1, 3) {
+		sk.UseDeprecatedKeys(p)
+		c.Count("A.podreqs.deprecated-keys")
+	}
 	all := r.Bool()
 	d := sk.DumpPod(p)
 	q := p.DeepCopy()
@@ -194,6 +199,8 @@ func errClassNC(err error) string {
 		return "ETaints"
 	case strings.HasPrefix(s, "incompatible requirements"):
 		return "EReqs"
+	case strings.HasPrefix(s, "incompatible volume requirements"):
+		return "EVolReqs"
 	}
 	return "UNKNOWN(" + s + ")"
 }
@@ -224,11 +231,149 @@ func podData(p *corev1.Pod, all bool) *psched.PodData {
 	return &psched.PodData{Requests: resources.RequestsForPods(p), Requirements: rs, StrictRequirements: strict}
 }
 
-// karpenter's own PodData.Requests (input of CanAdd) replaces the k8s-computed requests in the unit cases
+// karpenter's own PodData.Requests (input of CanAdd) replaces the k8s-computed requests in the unit cases; the volume
+// inputs of CanAdd (GetVolumes, VolumeTopology.GetRequirements) are taken from the real functions as well
 func dumpPodK(p *corev1.Pod) sk.PodDump {
 	d := sk.DumpPod(p)
 	d.Requests = sk.Milli(resources.RequestsForPods(p))
 	return d
+}
+
+func volPairs(v scheduling.Volumes) [][2]string {
+	out := [][2]string{}
+	for _, s := range v.VerifC11Flat() {
+		parts := strings.SplitN(s, "|", 2)
+		out = append(out, [2]string{parts[0], parts[1]})
+	}
+	return out
+}
+
+// withVolumes fills PodData.VolumeRequirements and the dump's volume inputs from the real code.
+func withVolumes(ctx context.Context, cl client.Client, p *corev1.Pod, pd *psched.PodData, d *sk.PodDump) scheduling.Volumes {
+	alts, err := psched.NewVolumeTopology(cl).GetRequirements(ctx, p)
+	if err != nil {
+		panic(err)
+	}
+	pd.VolumeRequirements = alts
+	for _, a := range alts {
+		d.VAlts = append(d.VAlts, sk.DumpReqs(a))
+	}
+	vols, err := scheduling.GetVolumes(ctx, cl, p)
+	if err != nil {
+		panic(err)
+	}
+	d.Vols = volPairs(vols)
+	return vols
+}
+
+// applyVolumes creates the world's storage objects in a client.
+func applyVolumes(ctx context.Context, cl client.Client, w *sk.World) {
+	for _, sc := range w.StorageClasses {
+		kit.Apply(ctx, cl, sc.DeepCopy())
+	}
+	for _, name := range w.VolOrder {
+		if vs := w.Vols[name]; vs.PV != nil {
+			kit.Apply(ctx, cl, vs.PV.DeepCopy())
+			// VolumeTopology looks the (cluster-scoped) PV up with the pod's namespace, which an API server ignores and the fake client does not
+			nsCopy := vs.PV.DeepCopy()
+			nsCopy.Namespace = vs.PVC.Namespace
+			kit.Apply(ctx, cl, nsCopy)
+		}
+		kit.Apply(ctx, cl, w.Vols[name].PVC.DeepCopy())
+	}
+}
+
+// ------------------------------------------------------------------ volumes: ExceedsLimits, GetRequirements
+
+func caseVolLimits(c *kit.Ctx, r *kit.Rand) {
+	u := scheduling.NewVolumeUsage()
+	limits := map[string]int64{}
+	for _, d := range []string{sk.DriverA, sk.DriverB} {
+		if r.Chance(2, 3) {
+			l := r.Intn(4)
+			u.AddLimit(d, l)
+			limits[d] = int64(l)
+		}
+	}
+	randVols := func() scheduling.Volumes {
+		v := scheduling.Volumes{}
+		for i := 0; i < r.Intn(4); i++ {
+			v.Add(kit.Pick(r, []string{sk.DriverA, sk.DriverB, "csi.unlimited"}), fmt.Sprintf("default/pvc-%d", r.Intn(5)))
+		}
+		return v
+	}
+	used := scheduling.Volumes{}
+	for i := 0; i < r.Intn(3); i++ {
+		v := randVols()
+		u.Add(&corev1.Pod{ObjectMeta: metav1.ObjectMeta{Name: fmt.Sprintf("q%d", i), Namespace: "default"}}, v)
+		used = used.Union(v)
+	}
+	nv := randVols()
+	ex := u.ExceedsLimits(nv) != nil
+	gv := func(v scheduling.Volumes) string {
+		return kit.GListOf(volPairs(v), func(p [2]string) string { return kit.GPair(gs(p[0]), gs(p[1])) })
+	}
+	c.Count(fmt.Sprintf("A.vol.exceeds=%v", ex))
+	c.AddCase(fmt.Sprintf("(CVolLimits %s %s %s %s)", gLimits(limits), gv(used), gv(nv), kit.GBool(ex)),
+		map[string]interface{}{"kind": "VolumeUsage.ExceedsLimits", "limits": limits, "used": volPairs(used), "new": volPairs(nv), "exceeds": ex}, fmt.Sprintf("vollimits|%v|%v|%v", limits, volPairs(used), volPairs(nv)))
+}
+
+func caseVolAlts(c *kit.Ctx, r *kit.Rand) {
+	ctx := kit.Context()
+	w := &sk.World{}
+	sk.GenVolumes(r, w, r.Range(2, 5))
+	cl := kit.NewClient(interceptor.Funcs{})
+	applyVolumes(ctx, cl, w)
+	p := &corev1.Pod{ObjectMeta: metav1.ObjectMeta{Name: "p", Namespace: "default", UID: "uid-p"}, Spec: corev1.PodSpec{Containers: []corev1.Container{{Name: "c"}}}}
+	for i := 0; i < r.Range(1, 3); i++ {
+		sk.AttachVolumes(r, w, p)
+	}
+	alts, err := psched.NewVolumeTopology(cl).GetRequirements(ctx, p)
+	if err != nil {
+		panic(err)
+	}
+	// the volumes as Kubernetes objects describe them: local flag and the raw terms (hostname expressions included)
+	type volJ struct {
+		Local bool      `json:"local"`
+		Terms []sk.Term `json:"terms"`
+	}
+	var vols []volJ
+	for _, v := range p.Spec.Volumes {
+		vs := w.Vols[v.PersistentVolumeClaim.ClaimName]
+		vj := volJ{Terms: []sk.Term{}}
+		if vs.PV != nil {
+			vj.Local = vs.PV.Spec.Local != nil || vs.PV.Spec.HostPath != nil
+			if vs.PV.Spec.NodeAffinity != nil && vs.PV.Spec.NodeAffinity.Required != nil {
+				for _, t := range vs.PV.Spec.NodeAffinity.Required.NodeSelectorTerms {
+					term := sk.Term{}
+					for _, e := range t.MatchExpressions {
+						term = append(term, sk.Expr{Key: e.Key, Op: string(e.Operator), Vals: append([]string{}, e.Values...)})
+					}
+					vj.Terms = append(vj.Terms, term)
+				}
+			}
+		} else if vs.PVC.Spec.StorageClassName != nil {
+			for _, sc := range w.StorageClasses {
+				if sc.Name == *vs.PVC.Spec.StorageClassName {
+					for _, t := range sc.AllowedTopologies {
+						term := sk.Term{}
+						for _, e := range t.MatchLabelExpressions {
+							term = append(term, sk.Expr{Key: e.Key, Op: "In", Vals: append([]string{}, e.Values...)})
+						}
+						vj.Terms = append(vj.Terms, term)
+					}
+				}
+			}
+		}
+		vols = append(vols, vj)
+	}
+	var obs []sk.Reqs
+	for _, a := range alts {
+		obs = append(obs, sk.DumpReqs(a))
+	}
+	c.Count(fmt.Sprintf("A.vol.alternatives=%d", min(len(alts), 4)))
+	c.AddCase(fmt.Sprintf("(CVolAlts %s %s)", kit.GListOf(vols, func(v volJ) string { return kit.GPair(kit.GBool(v.Local), kit.GListOf(v.Terms, gTerm)) }), kit.GListOf(obs, gReqs)),
+		map[string]interface{}{"kind": "VolumeTopology.GetRequirements", "volumes": vols, "alternatives": obs}, fmt.Sprintf("volalts|%v", vols))
 }
 
 func names(its []*cloudprovider.InstanceType) []string {
@@ -250,6 +395,11 @@ func caseNC(c *kit.Ctx, r *kit.Rand) {
 	np := w.Pools[0]
 	all, bestEffort := r.Bool(), r.Bool()
 	cl := kit.NewClient(interceptor.Funcs{})
+	withVols := r.Chance(1, 2)
+	if withVols {
+		sk.GenVolumes(r, w, r.Range(2, 4))
+		applyVolumes(ctx, cl, w)
+	}
 	clk := clock.NewFakeClock(time.Unix(1_700_000_000, 0))
 	cluster := state.NewCluster(clk, cl, fake.NewCloudProvider())
 	itsMap := map[string][]*cloudprovider.InstanceType{np.Name: w.Catalog}
@@ -291,9 +441,19 @@ func caseNC(c *kit.Ctx, r *kit.Rand) {
 	okCount := 0
 	for i := 0; i < nsteps; i++ {
 		p := sk.GenPod(r, fmt.Sprintf("p%d", i), w, sk.GenOpts{NoTopology: true})
+		if r.Chance(1, 5) {
+			sk.UseDeprecatedKeys(p)
+		}
+		if withVols && r.Chance(1, 2) {
+			sk.AttachVolumes(r, w, p)
+		}
 		d := dumpPodK(p)
 		q := p.DeepCopy()
 		pd := podData(q, all)
+		withVolumes(ctx, cl, q, pd, &d)
+		if len(d.VAlts) > 0 {
+			c.Count(fmt.Sprintf("A.nc.volume-alternatives=%d", min(len(d.VAlts), 3)))
+		}
 		relax := bestEffort && len(nc.Pods) == 0
 		// branch counters of filterInstanceTypesByRequirements, taken before the call
 		hp := scheduling.GetHostPorts(q)
@@ -390,6 +550,10 @@ func errClassEX(err error) string {
 		return "EPorts"
 	case s == "exceeds node resources":
 		return "EResources"
+	case strings.HasPrefix(s, "checking volume usage"):
+		return "EVolumes"
+	case strings.HasPrefix(s, "incompatible volume requirements"):
+		return "EVolReqs"
 	case strings.Contains(s, "does not have known values"), strings.HasPrefix(s, "key "):
 		return "EReqs"
 	}
@@ -409,7 +573,15 @@ func caseEX(c *kit.Ctx, r *kit.Rand) {
 	}
 	w.DaemonSets = sk.GenDaemonSets(r, r.Intn(3), w)
 	sk.BindDaemonPods(r, w)
-	out, err := sk.Run(&sk.World{Catalog: w.Catalog, Pools: w.Pools, Nodes: []*sk.NodeSpec{{Kind: "ready", Node: w.Nodes[0].Node, NodeClaim: w.Nodes[0].NodeClaim, Bound: w.Nodes[0].Bound, DSBound: w.Nodes[0].DSBound}},
+	if r.Chance(2, 3) {
+		sk.GenVolumes(r, w, r.Range(2, 4))
+		for _, b := range w.Nodes[0].Bound {
+			if r.Bool() {
+				sk.AttachVolumes(r, w, b)
+			}
+		}
+	}
+	out, err := sk.Run(&sk.World{StorageClasses: w.StorageClasses, Vols: w.Vols, VolOrder: w.VolOrder, CSILimits: w.CSILimits, Catalog: w.Catalog, Pools: w.Pools, Nodes: []*sk.NodeSpec{{Kind: "ready", Node: w.Nodes[0].Node, NodeClaim: w.Nodes[0].NodeClaim, Bound: w.Nodes[0].Bound, DSBound: w.Nodes[0].DSBound}},
 		DaemonSets: w.DaemonSets, Pods: []*corev1.Pod{sk.GenPod(r, "seed", w, sk.GenOpts{NoTopology: true})}}, sk.RunCfg{Workers: 1})
 	if err != nil {
 		panic(err)
@@ -441,7 +613,18 @@ func caseEX(c *kit.Ctx, r *kit.Rand) {
 	c.AddCase(fmt.Sprintf("(CNewEx %s %s %s %s)", gRL(avail), gRL(dt), gRL(dsSched), gRL(rem0)),
 		map[string]interface{}{"kind": "NewExistingNode", "available": avail, "daemonTotal": dt, "daemonSetRequestsOnNode": dsSched, "remaining": rem0}, fmt.Sprintf("newex|%v|%v|%v", avail, dt, dsSched))
 
-	n0 := fmt.Sprintf("(mkEN %s %s %s %s [])", kit.GListOf(sk.DumpTaints(en.VerifC01Taints()), gTaint), gReqs(sk.DumpReqs(en.VerifC01Requirements())), gRL(rem0), gUsage(dumpUsage(sn.HostPortUsage())))
+	union, _, vlim := sn.VolumeUsage().VerifC11Dump()
+	var usedVols [][2]string
+	for _, u := range union {
+		parts := strings.SplitN(u, "|", 2)
+		usedVols = append(usedVols, [2]string{parts[0], parts[1]})
+	}
+	limits := map[string]int64{}
+	for k, v := range vlim {
+		limits[k] = int64(v)
+	}
+	n0 := fmt.Sprintf("(mkEN %s %s %s %s [] %s %s)", kit.GListOf(sk.DumpTaints(en.VerifC01Taints()), gTaint), gReqs(sk.DumpReqs(en.VerifC01Requirements())), gRL(rem0), gUsage(dumpUsage(sn.HostPortUsage())),
+		kit.GListOf(usedVols, func(p [2]string) string { return kit.GPair(gs(p[0]), gs(p[1])) }), gLimits(limits))
 	var steps []string
 	var js []interface{}
 	okCount := 0
@@ -452,10 +635,14 @@ func caseEX(c *kit.Ctx, r *kit.Rand) {
 			p.Spec.Containers[0].Resources.Requests = sk.RLOf(int64(kit.Pick(r, []int{100, 250, 500})), 64, -1)
 			p.Spec.InitContainers = nil
 		}
+		if len(w.VolOrder) > 0 && r.Chance(1, 2) {
+			sk.AttachVolumes(r, w, p)
+		}
 		d := dumpPodK(p)
 		q := p.DeepCopy()
 		pd := podData(q, all)
-		reqs, _, err := en.CanAdd(ctx, q, pd, scheduling.Volumes{}, nil)
+		vols := withVolumes(ctx, out.Client, q, pd, &d)
+		reqs, _, err := en.CanAdd(ctx, q, pd, vols, nil)
 		var obs string
 		if err != nil {
 			cls := errClassEX(err)
@@ -463,7 +650,7 @@ func caseEX(c *kit.Ctx, r *kit.Rand) {
 			obs = "(EErr " + cls + ")"
 			js = append(js, map[string]interface{}{"pod": d, "error": cls, "message": err.Error()})
 		} else {
-			en.Add(ctx, q, pd, reqs, scheduling.Volumes{}, nil)
+			en.Add(ctx, q, pd, reqs, vols, nil)
 			okCount++
 			c.Count("A.ex.ok")
 			obs = fmt.Sprintf("(EOk %s %s)", gReqs(sk.DumpReqs(reqs)), gRL(sk.Milli(en.VerifC01Remaining())))
